@@ -465,7 +465,7 @@ func runC10(e *Env) {
 		{{"txt", "😀"}}, {{"txt", `\U0001F600`}}, {{"lic", `\\U0001F600`}}, {{"mrk", `"\U0001F600"`}}, {{"txt", `\u00e9 \x41 \n \t \\`}}, {{"txt", "a\u0085b\u2028c"}}, {{"lic", "a\u00a0nbsp"}}, {{"mrk", "e\u0301"}}, {{"txt", "𝄪 𝄫"}}, {{"txt", "\x7f\x1b"}},
 		// a value that spans lines (LF, CR LF, CR), a free key next to the documented ones
 		// what a careless printer would take for a formatting directive
-		{{"txt", "100% sure"}}, {{"lic", "%s %d %v"}, {"mrk", "50%!"}}, {{"txt", "%%"}, {"lic", "%!s(MISSING)"}, {"mrk", "${HOME} `x` \\n"}},
+		{{"txt", "100% sure"}}, {{"lic", "%s %d %v"}, {"mrk", "50%!"}}, {{"txt", "%%"}, {"lic", "%!s(MISSING)"}, {"mrk", "$HOME `x` \\n"}},
 		{{"txt", "line 1\nline 2"}}, {{"lic", "a\r\nb"}}, {{"mrk", "x\ry"}}, {{"sec", "A"}, {"txt", "t"}, {"note to self", "x"}}}
 	// many entries on one instance, a long key, a long value
 	many := [][2]string{}
